@@ -8,7 +8,7 @@ int ob_dup(int, int); int ob_del(int); int ob_done(int); int ob_type_ok(int); in
 }
 using namespace vt;
 namespace {
-const std::vector<std::string> kWords = {"abc", "abcd", "ab", "b", "x9", "ABC", "m", "zz", "a", "mid"};
+const std::vector<std::string> kWords = {"abc", "abcd", "ab", "b", "x9", "ABC", "m", "zz", "a", "mid", "\x80", "\xe9z", "a\xff" "b", "\xff"};   // four with bytes >= 0x80: the order must not depend on the sign of char on one path only
 
 std::string pack(const Op &op) { std::string p; for (auto &s : op.strs) { p += s; p.push_back('\0'); } return p; }
 bool is_container(int cls) { return cls >= 7; }
